@@ -18,8 +18,8 @@
      Reset* .............. dprocedures/dolt_reset.go + env/actions/reset.go
      Stash* .............. dprocedures/dolt_stash.go:113,164
      Checkout* ........... dprocedures/dolt_checkout.go, dolt_checkout_helpers.go:31, env/actions/checkout.go:124,278
-   Deviations of the code from the intended design are NAMED (constant AsCode; MoveTblAsCode "drop-lost" in
-   CheckoutMove, "stash-overwrites-untracked" in StashPush, "revert-abort-wipes-dirty" in Abort): generator configs follow the code (AsCode = TRUE) and
+   Deviations of the code from the intended design are NAMED (constant AsCode; "stash-overwrites-untracked" in
+   StashPush, "revert-abort-wipes-dirty" in Abort; the former "drop-lost" of CheckoutMove was repaired in dolt, ecacb8c): generator configs follow the code (AsCode = TRUE) and
    the step record carries the intended result as well (args.dev, args.ideal), so that the engine reports the code's
    deviation as a known finding and still follows the behaviour; exhaustive configs check the properties on the
    intended semantics (AsCode = FALSE).
@@ -349,7 +349,9 @@ MoveTblIdeal(old, new, ch) ==
 \* skips empty hashes without removing the table from the new head: the uncommitted DROP TABLE is lost.
 MoveTblAsCode(old, new, ch) ==
     IF new.ex /\ old # ch /\ old = new /\ ~ch.ex THEN [cf |-> FALSE, tb |-> new] ELSE MoveTblIdeal(old, new, ch)
-MoveTbl(old, new, ch) == IF AsCode THEN MoveTblAsCode(old, new, ch) ELSE MoveTblIdeal(old, new, ch)
+\* repaired in dolt by ecacb8c (writeTableHashes treats an empty hash as a drop): the code now IS MoveTblIdeal; MoveTblAsCode
+\* is kept as the record of the former behaviour (a regression to it is a plain mismatch at CheckoutMove)
+MoveTbl(old, new, ch) == MoveTblIdeal(old, new, ch)
 MoveRoot(oldR, newR, chR, F(_, _, _)) == [t \in Tables |-> F(oldR[t], newR[t], chR[t])]
 HasChanges(b) == ws[b].working # ws[b].staged \/ ws[b].staged # HeadRoot(b)
 
